@@ -38,7 +38,8 @@ CONSTANTS Families,     \* set of bound records; Init picks one ("separate confi
                         \*   calls   history length, builds not counted
                         \*   ctx     number of ExecutionContexts (client.operation() calls / root groups)
                         \*   chain0  initial account counter
-                        \*   key     "applied": legacy node; "validated": current Octez (>= v19) mempool RPC
+                        \*   key     "applied": legacy node; "validated": current Octez (>= v19) mempool RPC; "split": current node, oldest pending operation
+                        \*           classified ("validated"), the later ones only received ("unprocessed") - all of them hold counters
           Repaired      \* deviations of the as-coded machine that have been repaired in the code under test:
                         \* a subset of {"validated-mempool", "failed-simulation"} ({} = the tree as found)
 None == -1
